@@ -427,4 +427,35 @@ def pyMarshal (sys : PySys) (U : Sys) : EngArrays :=
       (getValueInEnv (sys.dcoef.getD s default) (sys.envs.getD e "") ⟨0, Dim.diffusion⟩).inU U
     vol := (List.range sys.space.size).map fun i => (sys.space.volOf i).inU U }
 
+/-! ### what the engine reads out of the marshalled arrays -/
+
+/-- the network tables as the native code reads them: flat arrays through the generated index formulas -/
+def netOfArrays (A : EngArrays) : Net where
+  nSpecies := A.ns
+  nReact := A.nr
+  nEnv := A.nenv
+  k := fun e r => A.k.getD (kIndex A.nr e r).toNat 0
+  sub := fun s r => A.sub.getD (subIndex A.nr s r).toNat 0
+  sto := fun s r => A.sto.getD (stoIndex A.nr s r).toNat 0
+  dcoef := fun s e => A.D.getD (dIndex A.nenv s e).toNat 0
+
+/-- graph initialiser: the tables, `mesh_env`, the edge list, `pow(V, 1/3)` per node (external primitive), `mesh_chstt` -/
+def engOfArraysGraph (A : EngArrays) (env : Nat → Nat) (edges : List GEdge) (edge : Nat → Rat) (chem : Nat → Nat → Bool) : EngIn where
+  net := netOfArrays A
+  topo := graphTopo A.vol.length edges (netOfArrays A) env (fun i => A.vol.getD i 0) edge
+  env := env
+  chem := chem
+  vol := fun i => A.vol.getD i 0
+
+/-- grid initialiser (`h` = `pow(cell_vol, 1/3)`) -/
+def engOfArraysGrid (A : EngArrays) (env : Nat → Nat) (g : GridShape) (h : Rat) (chem : Nat → Nat → Bool) : EngIn where
+  net := netOfArrays A
+  topo := gridTopo g (netOfArrays A) env h
+  env := env
+  chem := chem
+  vol := fun i => A.vol.getD i 0
+
+/-- the edge list handed to `engineexport_initialize_graph`: endpoints, surface and distance as numbers in `U` -/
+def edgesInU (U : Sys) (edges : List PyEdge) : List GEdge := edges.map fun e => ⟨e.i, e.j, e.sfc.inU U, e.dst.inU U⟩
+
 end Strengths
